@@ -275,8 +275,10 @@ jose_jwe_enc_cek_io(jose_cfg_t *cfg, json_t *jwe, const json_t *cek,
                     jose_io_t *next)
 {
     const jose_hook_alg_t *alg = NULL;
+    json_auto_t *prt = NULL;
     const char *h = NULL;
     const char *k = NULL;
+    const char *z = NULL;
 
     if (json_unpack(jwe, "{s?{s?s}}", "unprotected", "enc", &h) < 0)
         return NULL;
@@ -329,6 +331,28 @@ jose_jwe_enc_cek_io(jose_cfg_t *cfg, json_t *jwe, const json_t *cek,
 
     if (!encode_protected(jwe))
         return NULL;
+
+    if (json_object_get(jwe, "protected")) {
+        prt = jose_b64_dec_load(json_object_get(jwe, "protected"));
+        if (!prt)
+            return NULL;
+    }
+
+    if (json_unpack(prt, "{s:s}", "zip", &z) == 0) {
+        const jose_hook_alg_t *a = NULL;
+        jose_io_auto_t *enc = NULL;
+
+        /* The plaintext is compressed as one stream, before encryption. */
+        a = jose_hook_alg_find(JOSE_HOOK_ALG_KIND_COMP, z);
+        if (!a)
+            return NULL;
+
+        enc = alg->encr.enc(alg, cfg, jwe, cek, next);
+        if (!enc)
+            return NULL;
+
+        return a->comp.def(a, cfg, enc);
+    }
 
     return alg->encr.enc(alg, cfg, jwe, cek, next);
 }
